@@ -26,10 +26,11 @@ def digest(arr):
 
 
 class World(object):
-    def __init__(self, wd):
+    def __init__(self, wd, libs=None):
         from mpilot.program import Program
 
-        self.p = Program(libraries=decl.CSV_LIBS, working_dir=wd)
+        self.netcdf = libs is not None
+        self.p = Program(libraries=libs or decl.CSV_LIBS, working_dir=wd)
         self.n = 0
         self.plain = []
         self.fuzzy = []
@@ -122,7 +123,11 @@ def consumer_steps(w, rng, cname, first=None):
         elif "OutFieldNames" in ins:
             pool = w.plain + w.fuzzy
             names = [first or rng.choice(pool), rng.choice(pool)]
-            out.append([("OutFileName", "out_%d.csv" % rng.randint(0, 10 ** 6)), ("OutFieldNames", names)])
+            if "DimensionFileName" in ins:        # the NetCDF writer: one to three results on the template's dimensions
+                names = names + ([rng.choice(pool)] if rng.random() < 0.5 else [])
+                out.append([("OutFileName", "out_%d.nc" % rng.randint(0, 10 ** 6)), ("OutFieldNames", names), ("DimensionFileName", "in.nc"), ("DimensionFieldName", "a")])
+            else:
+                out.append([("OutFileName", "out_%d.csv" % rng.randint(0, 10 ** 6)), ("OutFieldNames", names)])
         elif "InFieldName" in ins and hasattr(ins["InFieldName"], "is_fuzzy"):
             want = ins["InFieldName"].is_fuzzy
             pool = w.fuzzy if want else w.plain if want is False else w.plain + w.fuzzy
@@ -195,6 +200,29 @@ def check_C09(tier):
         w = world(k)
         for step in range(hl):
             cname = rng.choice(data_cmds)
+            steps = consumer_steps(w, rng, cname)
+            if steps:
+                w.add(cname, rng.choice(steps))
+        records.append({"id": len(records), "ev": w.ev})
+    # (3) the NetCDF library's reader and writer as producers / consumers (results with and without a mask array)
+    from . import netcdfio
+
+    for h in range(8 if tier == "quick" else 120):
+        k += 1
+        wd = os.path.join(root, "w%d" % k)
+        os.makedirs(wd)
+        g = lambda vals, mask: numpy.ma.array(numpy.array(vals, dtype=float).reshape(2, 3), mask=numpy.array(mask, dtype=bool).reshape(2, 3))
+        netcdfio.make_dataset(os.path.join(wd, "in.nc"), (2, 3), {"a": g([0.5, -0.25, 1, 0, 0.75, -1], [0, 1, 0, 0, 0, 0]), "b": g([1, 2, 3, 4, 5, 6], [0, 0, 0, 0, 1, 1]),
+                                                                  "c": numpy.ma.array(numpy.arange(6.0).reshape(2, 3) / 4 - 0.5), "d": g([3, 1, 2, 9, 9, 0], [1, 0, 0, 0, 0, 0])}, crs=(h % 2 == 0))
+        w = World(wd, decl.NETCDF_LIBS)
+        w.add("EEMSRead", [("InFileName", "in.nc"), ("InFieldName", "a")])
+        w.add("EEMSRead", [("InFileName", "in.nc"), ("InFieldName", "b")])
+        w.add("EEMSRead", [("InFileName", "in.nc"), ("InFieldName", "c")])
+        w.add("EEMSRead", [("InFileName", "in.nc"), ("InFieldName", "d"), ("MissingValue", 9)])
+        w.add("CvtToFuzzy", [("InFieldName", w.plain[0])])
+        w.add("CvtToFuzzy", [("InFieldName", w.plain[2]), ("TrueThreshold", 0.5), ("FalseThreshold", -0.5)])
+        for step in range(10):
+            cname = rng.choice(["EEMSWrite", "EEMSWrite", "Sum", "FuzzyAnd", "Copy"])
             steps = consumer_steps(w, rng, cname)
             if steps:
                 w.add(cname, rng.choice(steps))
